@@ -71,6 +71,10 @@ class Operator:
 
             Used in dot operator for vector-vector, matrix-vector, vector-matrix and matrix-matrix multiplications.
         """
+        clone = self.clone_with_index(index)
+        if clone is not self:
+            # the index has to reach the operators nested in this one, too
+            return clone.term(time)
         temp = self.index
         self.index = index
         result = self.term(time)
